@@ -766,7 +766,7 @@ def typed_reader(ctx, prog, m, mk, accs, variant, accessor_fields):
                      for im in prog.impls)
     # the trackers' fields that hold the kind of the running reaction (by type)
     kind_fields = set()
-    for ty_ in accessor_fields:
+    for ty_ in set(accessor_fields) | {p_ for p_ in prog.adts if p_.endswith("AccessTracker")}:
         try:
             for f_ in prog.adts[ty_]["variants"][0]["fields"]:
                 if f_["ty"].endswith("::EntityReactionType"):
@@ -796,6 +796,13 @@ def typed_reader(ctx, prog, m, mk, accs, variant, accessor_fields):
                         return False
                     own = False
                     for o2 in origins(m, ag["ops"][0]):
+                        # the reader's own id record read directly (`self.component_id.id`, the getter inlined away): a field
+                        # that every construction site of its type fills with TypeId::of::<T>()
+                        if o2[0] == "arg" and o2[1] == 1 and len(o2) >= 4:
+                            own = _own_type_id_field(ctx, prog, m, o2)
+                            if own:
+                                continue
+                            break
                         if o2[0] == "call":
                             fr2 = op_fn(m.blocks[o2[1]]["term"]["func"])
                             cb2 = prog.resolve_local(fr2) if fr2 else None
@@ -846,6 +853,45 @@ def typed_reader(ctx, prog, m, mk, accs, variant, accessor_fields):
 
 
 _getter_cache = {}
+
+
+def _own_type_id_field(ctx, prog, m, o):
+    """origin ('arg', 1, '.<reader field>', '.<id field>') where the reader field's type is a crate record whose <id field> is
+    filled with TypeId::of::<T>() at every construction site"""
+    rdr = prog.adts.get(lib.impl_self_path(m))
+    if rdr is None:
+        return False
+    f1, f2 = o[2].lstrip("."), o[3].lstrip(".")
+    fty = next((f_["ty"] for f_ in rdr["variants"][0]["fields"] if f_["name"] == f1), None)
+    if fty is None:
+        return False
+    sp = re.sub(r"<.*$", "", fty)
+    if sp not in prog.adts:
+        # wrapped in a system parameter (`Local<'s, ReactComponentId<T>>`): the one crate record named inside
+        inner = [p_ for p_ in prog.adts if re.search(r"(?<![\w:])%s(?![\w])" % re.escape(p_), fty)]
+        if len(inner) != 1:
+            return False
+        sp = inner[0]
+    key = (sp, f2)
+    if key in _getter_cache:
+        return _getter_cache[key]
+    sites = []
+    for body in prog.bodies:
+        for b, i, st in body.iter_stmts():
+            if st["k"] == "assign" and "agg" in st["rv"] and st["rv"]["agg"].get("adt") == sp:
+                sites.append((body, st["rv"]["agg"]))
+    good = bool(sites)
+    for body, agg in sites:
+        idx = agg["fields"].index(f2) if f2 in agg.get("fields", []) else None
+        if idx is None:
+            good = False
+            continue
+        for oo in origins(body, agg["ops"][idx]):
+            fr = op_fn(body.blocks[oo[1]]["term"]["func"]) if oo[0] == "call" else None
+            if not (fr and lib.tail(mir.fn_name(fr), 2) == "TypeId::of" and fr.get("args") == ["T"]):
+                good = False
+    _getter_cache[key] = good
+    return good
 
 
 def own_type_id_getter(ctx, prog, cb):
